@@ -73,12 +73,23 @@ type ComplCase struct {
 type complOp struct {
 	name string
 	v    any
+	// fam/key: operands of the same family (num = integer kinds, float, str, bool; an integer against a float is left open) are equal exactly if their keys are equal; operands
+	// of different families (or of none) are only required to be judged complementarily
+	fam, key string
 }
+
+// shout is a named string type whose printed form differs from its text
+type shout string
+
+func (s shout) String() string { return strings.ToUpper(string(s)) }
+
+type plainName string
 
 func complOperands() []complOp {
 	type myInt int
-	return []complOp{{"int2", 2}, {"int3", 3}, {"int64_2", int64(2)}, {"uint2", uint(2)}, {"int8_3", int8(3)}, {"uint64_3", uint64(3)}, {"myInt2", myInt(2)},
-		{"str2", "2"}, {"strA", "a"}, {"float2", 2.0}, {"float32_2", float32(2)}, {"float2_5", 2.5}, {"nil", nil}, {"true", true}, {"false", false}, {"empty", ""}, {"zero", 0}, {"list12", []int{1, 2}}}
+	return []complOp{{"int2", 2, "num", "2"}, {"int3", 3, "num", "3"}, {"int64_2", int64(2), "num", "2"}, {"uint2", uint(2), "num", "2"}, {"int8_3", int8(3), "num", "3"}, {"uint64_3", uint64(3), "num", "3"}, {"myInt2", myInt(2), "num", "2"},
+		{"str2", "2", "str", "2"}, {"strA", "a", "str", "a"}, {"float2", 2.0, "float", "2"}, {"float32_2", float32(2), "float", "2"}, {"float2_5", 2.5, "float", "2.5"}, {"nil", nil, "", ""}, {"true", true, "bool", "t"}, {"false", false, "bool", "f"}, {"empty", "", "str", ""}, {"zero", 0, "num", "0"}, {"list12", []int{1, 2}, "", ""},
+		{"shout_go", shout("go"), "str", "go"}, {"shout_GO", shout("GO"), "str", "GO"}, {"str_go", "go", "str", "go"}, {"str_GO", "GO", "str", "GO"}, {"named_go", plainName("go"), "str", "go"}, {"float0_5", 0.5, "float", "0.5"}, {"float0", 0.0, "float", "0"}}
 }
 
 func (c *ComplCase) ID() string {
@@ -90,6 +101,20 @@ func (c *ComplCase) Exec(t *eng.T) {
 	t.Nontrivial()
 	ops := complOperands()
 	src := "{% ifequal a b %}E{% else %}e{% endifequal %}{% ifnotequal a b %}N{% else %}n{% endifnotequal %}|{% ifequal b a %}E{% else %}e{% endifequal %}{% ifnotequal b a %}N{% else %}n{% endifnotequal %}"
+	a, b := ops[c.A], ops[c.B]
+	if a.fam != "" && a.fam == b.fam {
+		// same family: equality is defined, and ifchanged over the two values agrees with it
+		want := "eN"
+		chg := "CC"
+		if a.key == b.key {
+			want, chg = "En", "Cs"
+		}
+		o := px.Render(nil, src+"|{% for x in pair %}{% ifchanged x %}C{% else %}s{% endifchanged %}{% endfor %}", pongo2.Context{"a": a.v, "b": b.v, "pair": []any{a.v, b.v}})
+		if !o.Failed() && o.S != want+"|"+want+"|"+chg {
+			t.Fail("ifequal:same-family", "%s: two %s operands with the %s render %q, expected %q", c.ID(), a.fam, map[bool]string{true: "same value", false: "different values"}[a.key == b.key], o.S, want+"|"+want+"|"+chg)
+			return
+		}
+	}
 	o := px.Render(nil, src, pongo2.Context{"a": ops[c.A].v, "b": ops[c.B].v})
 	t.Outcome(o.String())
 	if o.Panic != "" {
@@ -198,9 +223,9 @@ func run(r *eng.Runner) {
 	}
 
 	// ---- P6: if / elif / else ----
-	r.Group("if-chains", "prog.case", "if with 0..2 elif and optional else, conditions drawn from 14 atoms covering the truthiness table, alone and inside a loop")
-	atoms := []Expr{v("yes"), v("no"), v("zero"), v("five"), v("es"), v("s"), v("el"), v("l"), v("em"), v("m"), v("nilv"), v("missing"), Not{E: v("no")}, Bin{Op: "==", L: v("five"), R: lit(5)}, Bin{Op: ">", L: v("five"), R: lit(7)}, Bin{Op: "and", L: v("yes"), R: v("es")}, Bin{Op: "or", L: v("zero"), R: v("s")}}
-	ctxIf := map[string]V{"yes": BoolV(true), "no": BoolV(false), "zero": IntV(0), "five": IntV(5), "es": StrV(""), "s": StrV("q"), "el": ListV(), "l": ListV(IntV(1)), "em": MapV(), "m": MapV("k", IntV(1)), "nilv": NilV(), "xs": ListV(IntV(1), IntV(2), IntV(3))}
+	r.Group("if-chains", "prog.case", "if with 0..2 elif and optional else, conditions drawn from 20 atoms covering the truthiness table (also fractions between -1 and 1), alone and inside a loop")
+	atoms := []Expr{v("yes"), v("no"), v("zero"), v("five"), v("es"), v("s"), v("el"), v("l"), v("em"), v("m"), v("nilv"), v("missing"), v("half"), v("fzero"), v("negq"), Not{E: v("no")}, Bin{Op: "==", L: v("five"), R: lit(5)}, Bin{Op: ">", L: v("five"), R: lit(7)}, Bin{Op: "and", L: v("yes"), R: v("es")}, Bin{Op: "or", L: v("zero"), R: v("s")}}
+	ctxIf := map[string]V{"yes": BoolV(true), "no": BoolV(false), "zero": IntV(0), "five": IntV(5), "es": StrV(""), "s": StrV("q"), "el": ListV(), "l": ListV(IntV(1)), "em": MapV(), "m": MapV("k", IntV(1)), "nilv": NilV(), "xs": ListV(IntV(1), IntV(2), IntV(3)), "half": FloatV(0.5), "fzero": FloatV(0), "negq": FloatV(-0.25)}
 	for elifs := 0; elifs <= 2; elifs++ {
 		for hasElse := 0; hasElse < 2; hasElse++ {
 			enum.Tuples(len(atoms), 1+elifs, func(idx []int) bool {
@@ -256,8 +281,8 @@ func run(r *eng.Runner) {
 	}
 
 	// ---- firstof ----
-	r.Group("firstof", "prog.case", "firstof over all argument lists of length 0..3 drawn from 9 atoms (falsy and truthy of every kind)")
-	fatoms := []Expr{v("nilv"), v("zero"), v("es"), v("no"), v("five"), v("s"), v("yes"), lits("lit"), lit(0), v("missing")}
+	r.Group("firstof", "prog.case", "firstof over all argument lists of length 0..3 drawn from 13 atoms (falsy and truthy of every kind, fractions between -1 and 1)")
+	fatoms := []Expr{v("nilv"), v("zero"), v("es"), v("no"), v("five"), v("s"), v("yes"), lits("lit"), lit(0), v("missing"), v("half"), v("fzero"), v("negq")}
 	enum.Seqs(len(fatoms), 3, func(idx []int) bool {
 		f := FirstOf{}
 		for _, i := range idx {
@@ -311,7 +336,7 @@ func run(r *eng.Runner) {
 	// top-level sequence of cycle tags
 	emit([]Node{&Cycle{Args: []Expr{lits("a"), lits("b")}, As: "c"}, CycleRef{Name: "c"}, CycleRef{Name: "c"}, O(v("c")), &Cycle{Args: []Expr{lits("x"), lits("y")}, As: "d", Silent: true}, O(v("d")), CycleRef{Name: "d"}, O(v("d"))}, nil, "cycle", "cycle-toplevel")
 
-	r.Group("ifequal-complement", "c09.compl", "ifequal and ifnotequal on every ordered pair of 18 operands of different Go kinds (int, int64, uint, int8, uint64, a named int, strings, float64, float32, nil, bools, a list): exactly one of the two takes its first branch")
+	r.Group("ifequal-complement", "c09.compl", "ifequal and ifnotequal on every ordered pair of 25 operands of different Go kinds (int, int64, uint, int8, uint64, a named int, strings, named strings with and without a String method, float64, float32, nil, bools, a list): exactly one of the two takes its first branch; two integers / two floats / two texts / two bools are equal exactly if their values are, and ifchanged over the pair agrees")
 	for a := range complOperands() {
 		for b := range complOperands() {
 			r.Do(&ComplCase{A: a, B: b})
